@@ -429,3 +429,16 @@ Proof.
   rewrite mget_transpose by (rewrite ?(proj1 WG), ?(proj1 WS), ?(proj1 WB); assumption).
   rewrite mget_transpose by (rewrite ?(proj1 WG), ?(proj1 WS), ?(proj1 WB); assumption). reflexivity.
 Qed.
+
+(* the loop with its decision trace computes the same result as the loop (any field) *)
+Lemma hals_trace_snd {F} (Op : fops F) UtM UtU n o tol fuel : forall first err0 V,
+  snd (hals_trace Op UtM UtU n o tol fuel first err0 V) = hals_loop Op UtM UtU n o tol fuel first err0 V.
+Proof.
+  induction fuel as [|f IH]; intros first err0 V; [reflexivity|].
+  cbn [hals_trace hals_loop]. cbv zeta. destruct (fltb _ _ _); [reflexivity|]. cbn [snd]. apply IH.
+Qed.
+Lemma hals_nnls_trace {F} (Op : fops F) UtM UtU n V0 sol iters tol o :
+  hals_nnls Op UtM UtU n V0 sol iters tol o =
+  if hals_rejects Op UtM UtU iters o then Err
+  else Ok (snd (hals_trace Op UtM UtU n o tol iters true (f0 Op) (match V0 with Some V => V | None => hals_init Op UtM UtU n sol end))).
+Proof. unfold hals_nnls. destruct (hals_rejects _ _ _ _ _); [reflexivity|]. cbv zeta. now rewrite hals_trace_snd. Qed.
